@@ -4,10 +4,10 @@ applies the patch to /repo, runs ./check <property> (quick), reverts. Prints one
 writes seeded/RESULTS.json. /repo must be clean before; it is restored after each patch."""
 import json, os, subprocess, sys, time
 ROOT = os.path.dirname(os.path.dirname(os.path.abspath(__file__)))
-REPO = "/repo"
+REPO = os.environ.get("SEEDED_REPO", "/repo")  # a scratch worktree of /repo can be used instead of /repo itself
 
 def sh(cmd, cwd=None):
-    p = subprocess.run(cmd, cwd=cwd, shell=isinstance(cmd, str), stdout=subprocess.PIPE, stderr=subprocess.STDOUT, text=True)
+    p = subprocess.run(cmd, cwd=cwd, shell=isinstance(cmd, str), stdout=subprocess.PIPE, stderr=subprocess.STDOUT, text=True, env=dict(os.environ, VERIF_REPO=REPO))
     return p.returncode, p.stdout
 
 def main():
